@@ -16,7 +16,12 @@ RULE = ('sequential histories of transmit / receive / dump on a real BroadcastTr
         'trailer counters are preset to c0: c0 in {0, 2^31-2cap .. 2^31+2cap, 2^32-2cap .. 2^32+2cap, 2^40, random multiples of 8}; cap 32..4096 '
         '(and 65536 for the 4096-byte scratch limit); message lengths 0..cap/8 at every alignment; patterns: ping-pong, bursts that leave the '
         'backlog at cap-8 / cap / cap+8 / several laps, padding at every wrap alignment, late-joining receiver, random mixes, and a malformed stream '
-        '(type <= 0, over-long, types unknown to from_command_id); debug and release builds. Non-trivial = the receiver is lapped at least once, '
+        '(type <= 0, over-long, types unknown to from_command_id); debug and release builds. Scheduled two-thread runs (one transmitter, one copying '
+        'receiver under the deterministic scheduler, access traces compared with the pc-machine model): no / one / two pre-emptions, random bursts, '
+        'the record in flight being the first after a padded wrap, and - third round - the receiver stopped at every access inside receive_next while '
+        'the transmitter, itself stopped at every access of a transmit, overwrites the record under its cursor or behind `latest` (incl. the family of '
+        'the recorded witness of lap-inside-receive-next). The model version (W64 = receive_next as found, W64R = fixes/C08-receive-next-revalidate.diff) '
+        'is read from the source of the repository under test. Non-trivial = the receiver is lapped at least once, '
         'or padding is inserted, or the counters pass 2^31; distinct = distinct histories')
 ASSUMPTIONS = [
     'one transmitter, one receiver; in the sequential part every transmit / receive runs to completion before the next starts',
